@@ -29,9 +29,21 @@ fn seg(u: &mut Universe, chain: usize, fork: Option<u32>, blocks: Vec<BlockSpec>
     }
 }
 
-/// 5 segments (4 segments of 5 blocks + a 102-block empty stretch), fork after S1, NU6.3 at FIRST+2:
+/// 5 segments (4 segments of 5 blocks + a 102-block empty stretch), forks after S1 and after S0, NU6.3 at FIRST+2:
 /// the quick-tier universe.
 pub fn tiny() -> Universe {
+    tiny_with(empties(102))
+}
+
+/// `tiny` with a 160-block stretch of foreign Orchard traffic instead of the empty one (every 13th
+/// block is empty): more than 100 checkpoints off the retained grid (which pruning skips) are
+/// created while the non-empty Sapling and Ironwood pools receive nothing - checkpoint pruning of
+/// idle pools. Used by the tree check (C06).
+pub fn tiny_trees() -> Universe {
+    tiny_with(traffic_in(Orchard, 160, 13))
+}
+
+fn tiny_with(stretch: Vec<BlockSpec>) -> Universe {
     let mut u = Universe::new(Some(FIRST + 2), FIRST, (SHARD - 2, SHARD - 2), 10);
     seg(&mut u, 0, None, vec![block(vec![tx(vec![out("a1", A, Sapling, External, 60_000), foreign(Sapling, 11_111)])])], 100);
     seg(
@@ -57,18 +69,34 @@ pub fn tiny() -> Universe {
         &mut u,
         0,
         None,
-        vec![block(vec![tx(vec![spend("a2"), out("a5", A, Orchard, Internal, 60_000)]), tx(vec![spend("a4"), out("a6", A, Ironwood, Internal, 45_000)])]), BlockSpec::default()],
+        vec![
+            // an Ironwood-only block in the interior of the S3 batch, off the retention grid
+            block(vec![tx(vec![spend("a4"), out("a6", A, Ironwood, Internal, 45_000)])]),
+            block(vec![tx(vec![spend("a2"), out("a5", A, Orchard, Internal, 60_000)])]),
+        ],
         103,
     );
-    // S4: 102 empty blocks: scanning them before an earlier segment moves the maximum scanned height
-    // more than PRUNING_DEPTH / NULLIFIER_MAP_RETENTION_BLOCKS (100) above the spends in S2 and S3
-    // while the fully-scanned height stays behind.
-    seg(&mut u, 0, None, empties(102), 104);
+    // S4: the stretch (> 100 blocks): scanning it before an earlier segment moves the maximum scanned
+    // height more than PRUNING_DEPTH / NULLIFIER_MAP_RETENTION_BLOCKS (100) above the spends in S2 and
+    // S3 while the fully-scanned height stays behind.
+    seg(&mut u, 0, None, stretch, 104);
     u.extend(
         1,
         Some(FIRST + 1),
         &[block(vec![tx(vec![out("x3", A, Orchard, External, 45_000)])]), block(vec![tx(vec![spend("a1"), out("x4", A, Sapling, Internal, 55_000)])]), BlockSpec::default()],
         204,
+    );
+    // second alternative branch, forking after S0 - inside Orchard shard 0, which both branches then
+    // complete (at position 2^16 - 1) with different leaves, and continue into shard 1
+    u.extend(
+        2,
+        Some(FIRST),
+        &[
+            block(vec![tx(vec![out("y2", A, Orchard, External, 33_000), foreign(Orchard, 9_999)])]),
+            block(vec![tx(vec![out("y3", A, Orchard, External, 44_000), foreign(Sapling, 8_888)])]),
+            BlockSpec::default(),
+        ],
+        304,
     );
     u
 }
@@ -128,13 +156,13 @@ pub fn small() -> Universe {
     u
 }
 
-/// `small` followed by a 105-block stretch and two more segments; second fork after S6.
+/// `small` followed by a 165-block stretch and two more segments; second fork after S6.
 pub fn mid() -> Universe {
     let mut u = small();
-    // S6: stretch of 105 blocks of foreign traffic (> PRUNING_DEPTH checkpoints, > nullifier
-    // retention, > expiry delta); every 7th block is empty so that some grid boundaries fall on
-    // commitment-free blocks.
-    seg(&mut u, 0, None, traffic(105), 106);
+    // S6: stretch of 165 blocks of foreign Orchard-only traffic (> PRUNING_DEPTH checkpoints while
+    // Sapling and Ironwood stay idle, > nullifier retention, > expiry delta); every 13th block is
+    // empty so that some grid boundaries fall on commitment-free blocks.
+    seg(&mut u, 0, None, traffic_in(Orchard, 165, 13), 106);
     // S7: spend a4 (Ironwood) and a3; receive a6
     seg(
         &mut u,
@@ -162,4 +190,9 @@ pub fn traffic(n: usize) -> Vec<BlockSpec> {
             }
         })
         .collect()
+}
+
+/// `n` blocks of foreign traffic in one pool; every `every`-th block is empty.
+pub fn traffic_in(pool: Pool, n: usize, every: usize) -> Vec<BlockSpec> {
+    (0..n).map(|i| if i % every == every - 1 { BlockSpec::default() } else { block(vec![tx(vec![foreign(pool, 1_000 + i as u64)])]) }).collect()
 }
